@@ -21,7 +21,11 @@ Inductive case :=
 | Lts (c : Stream.case)
 | Checked (kind : string) (id : Z) (ok : bool)   (* a comparison made on the Go side *)
 | UnaryStatus (http : bool) (code : Z) (msg_class : Z) (details : Z)
-              (obs_code : Z) (msg_same details_same : bool) (hdr_ok tlr_ok : bool).
+              (obs_code : Z) (msg_same details_same : bool) (hdr_ok tlr_ok : bool)
+  (* a streaming handler (kind 1 SS, 2 BD, 3 CS) sends [sends] messages and then fails; msg_class 6 is
+     an error value whose status carries the OK code *)
+| StreamStatus (http : bool) (kind sends : Z) (code : Z) (msg_class : Z) (details : Z)
+               (failed : bool) (obs_code obs_msgs : Z) (msg_same details_same : bool) (hdr_ok tlr_ok : bool).
   (* msg_class: 0 plain, 1 empty, 2 with ':' and '%', 3 non-ASCII, 4 CR/LF or edge white-space, 5 invalid UTF-8 *)
 
 Definition keys : list Z := [1; 2; 3].
@@ -45,6 +49,12 @@ Definition predicted (http : bool) (script : list hop) (code : Z) : view :=
   then {| v_msgs := v_msgs v; v_fin := FinStatus 2; v_hdr := v_hdr v; v_tlr := [] |}
   else v.
 
+(* the code the client reports for a failing streaming handler: the handler's own, except that an
+   OK-coded error value is turned into Internal by the HTTP server, while the in-process channel hands
+   the error value itself over (a non-nil error, so a failure, whose GRPCStatus still says OK) *)
+Definition stream_status_code (http : bool) (code cls oc : Z) : bool :=
+  if cls =? 6 then oc =? (if http then 13 else 0) else oc =? code.
+
 Definition check_case (k : case) : bool :=
   match k with
   | Script http hf script code o =>
@@ -64,6 +74,9 @@ Definition check_case (k : case) : bool :=
   | UnaryStatus http code cls det oc ms ds h t =>
       (oc =? (if code =? 0 then 13 else code)) && ds && h && t &&
       (if http && ((cls =? 4)) then true else ms)
+  | StreamStatus http kind sends code cls det failed oc om ms ds h t =>
+      failed && stream_status_code http code cls oc && ms && ds && h && t &&
+      (om =? (if kind =? 3 then 0 else sends))
   end.
 
 (* what the script asks for, independently of the emission model *)
